@@ -24,7 +24,8 @@ CLAIMED = {
          'with non-reflecting walls.', 'DESIGN.md section 4 C18'),
  'C20': ('Lean 4 theorems over every floor-ring ordered field (Nat.ceil arithmetic, induction over layers and depths) '
          'tied to UWG._procmat and to the ground columns built by generate() by exact rational execution of the real source',
-         'Proof: refinement preserves thickness/resistance/capacity and yields >=2 sub-layers <=5 cm; padding picks the '
+         'Proof: refinement preserves thickness/resistance/capacity (for mixed constructions: exactly those of the layers of at '
+         'least 1 cm, each with its own material - procmat_preserves_thick) and yields >=2 sub-layers <=5 cm; padding picks the '
          'first depth at or below the pavement and ends within one layer of it (exactly for whole-layer gaps). The model is '
          'checked equal to the real _procmat and to the columns the real generate() builds on synthetic EPW headers. The '
          'ground-temperature line itself is modelled (Model/EpwHeader: read back exactly for every number of depths) and tied '
@@ -132,7 +133,8 @@ CLAIMED = {
          'clock fields equal the true non-leap calendar instant and the day type equals the true weekday class (1 Jan = Sunday); '
          'the constructor accepts exactly the divisors of 3600 and the timestep exception is then unreachable; the year-end state '
          'is stated exactly. The real SimParam is stepped from all 365 start dates and for all 45 divisors and compared with the '
-         'model and with Python datetime.',
+         'model and with Python datetime. The look-up clause is also proved at the concrete per-building block of the loop body '
+         '(Props/Step.step_schedule_lookups: every building gets the entries of the step day type and hour, idle hour or not).',
          'Trusted: Lean kernel (core only), the calendar specification (month lengths), Python datetime as second oracle. '
          'secDay is a Python float after midnight (exact for these integers).', 'DESIGN.md section 4 C04'),
  'C02': ('Lean 4 theorems over Nat giving the closed form of the whole step loop (row index, clock, record trigger, record '
